@@ -488,6 +488,9 @@ class AbsRun:
                     return
                 # a branch on a 0/1 value: run both arms and join (no path is followed separately)
                 tf = self.ev.truth(s.test)
+                if tf.is_const():
+                    self.block(s.body if tf.const else s.orelse)  # decided in the domain (the folder could not, the forms can)
+                    return
                 if any(isinstance(n, (ast.Return, ast.Break, ast.Continue, ast.Raise)) for x in s.body + s.orelse for n in ast.walk(x)):
                     raise Inconclusive(f"branch on a non-constant leaves the block: {ast.unparse(s.test)[:60]}")
                 if self.on_store is not None and any(isinstance(n, (ast.Assign, ast.AugAssign)) and not isinstance(
